@@ -117,7 +117,7 @@ func Check(res *Result) []Violation {
 				continue
 			}
 			if x.d.Barrier {
-				c.add("C03", "capacity-lost", "exec %d (%s): barrier of %d simultaneously running user functions never completed; %s", x.idx, x.prog.Name, x.limit(), msg)
+				c.add("C03", "capacity-lost", "exec %d (%s): %d user functions are runnable at the same time and the limit is %d, but they never ran concurrently (barrier of %d never completed); %s", x.idx, x.prog.Name, x.barrierSize(), x.limit(), x.barrierSize(), msg)
 			}
 			if len(x.d.Stuck) > 0 && x.cancelFired > 0 {
 				c.add("C09", "not-prompt", "exec %d (%s): context was cancelled but the directive does not return while tasks are still running; %s", x.idx, x.prog.Name, msg)
